@@ -184,3 +184,94 @@ pub fn interesting_steps(p: usize, n: usize, len: usize) -> Vec<usize> {
     v.retain(|s| *s >= 1 && *s <= len);
     v
 }
+
+// ---------------------------------------------------------------- long runs
+
+use crate::incref::IncRef;
+use crate::oracle::compare_with;
+use crate::regimes::{Gen, Regime};
+
+/// One long generated stream on the real indicator, compared at every
+/// `stride`-th step (and the first 12) with the incremental double-double
+/// reference.  The first 10 steps are also cross-checked against the
+/// from-scratch reference (`refm::reference`): a disagreement between the two
+/// reference evaluations is a machinery error (returned as Err).
+pub fn long_run_incref(prop: &str, cfg: &Cfg, regimes: &[Regime], seglen: usize, m: f64, bars: bool, seed: u64, stride: usize, out: &mut JobOut) -> Result<(), String> {
+    let volumes = [1.0, 3.0, 0.0, 2.0, 7.0];
+    let mut g = Gen::new(m, seed);
+    let mut ir = IncRef::new(cfg);
+    let mut head: Vec<Op> = vec![];
+    let mut fail: Option<(usize, Vec<Op>, Out, String, String, String)> = None;
+    let mut machinery: Option<String> = None;
+    let total = regimes.len() * seglen;
+    out.stats.traces += 1;
+    let r = std::panic::catch_unwind(std::panic::AssertUnwindSafe(|| {
+        let mut s = crate::subjects::make(cfg);
+        let mut t = 0usize;
+        let mut recent: std::collections::VecDeque<Op> = std::collections::VecDeque::new();
+        let mut evals = (0u64, 0u64, 0.0f64);
+        'o: for r in regimes {
+            for i in 0..seglen {
+                let op = if bars { Op::B(g.bar(*r, i, &volumes)) } else { Op::S(g.price(*r, i)) };
+                t += 1;
+                let o = s.apply(&op);
+                let rf = ir.step(&op);
+                recent.push_back(op);
+                if recent.len() > 6 {
+                    recent.pop_front();
+                }
+                if t <= 10 {
+                    head.push(op);
+                    let full = crate::refm::reference(cfg, &head);
+                    for j in 0..rf.n {
+                        let (a, b) = (rf.v[j], full.v[j]);
+                        if !(a == b || (a - b).abs() <= 1e-13 * a.abs().max(b.abs()).max(1e-300)) && !(rf.den_zero || full.den_zero) {
+                            machinery = Some(format!("incremental and from-scratch reference disagree for {} at t={}: {} vs {}", cfg.descr(), t, a, b));
+                            break 'o;
+                        }
+                    }
+                }
+                if !(t % stride == 0 || t <= 12 || t == total || i < 2) {
+                    continue;
+                }
+                match compare_with(cfg, t, &rf, &o) {
+                    Verdict::Ok(w) => {
+                        evals.0 += 1;
+                        evals.2 = evals.2.max(w);
+                    }
+                    Verdict::Skip(_) => evals.1 += 1,
+                    Verdict::Fail { obs, exp, detail } => {
+                        fail = Some((t, recent.iter().copied().collect(), o, obs, exp, detail));
+                        break 'o;
+                    }
+                }
+            }
+        }
+        (t, evals)
+    }));
+    if let Some(m) = machinery {
+        return Err(m);
+    }
+    let names: Vec<&str> = regimes.iter().map(|r| r.name()).collect();
+    match r {
+        Ok((t, evals)) => {
+            out.stats.transitions += t as u64;
+            out.stats.states += evals.0 + evals.1;
+            out.stats.evaluations += evals.0;
+            out.stats.nontrivial += evals.0;
+            out.stats.skipped += evals.1;
+            out.stats.ratio(evals.2, 1.0, || format!("{} long run {:?} m={}", cfg.descr(), names, m));
+            if let Some((t, recent, _o, obs, exp, detail)) = fail {
+                out.fail(
+                    Violation::new(prop, cfg, &recent, "long-run-mismatch")
+                        .obs(obs)
+                        .exp(exp)
+                        .det(format!("{} at t={} of a generated stream (regimes {:?}, seglen {}, m={}, {}); ops shown = the last inputs", detail, t, names, seglen, m, if bars { "bars" } else { "scalars" }))
+                        .with("generator", format!("regimes={:?} seglen={} m={} bars={} seed={} failing_t={}", names, seglen, m, bars, seed, t)),
+                );
+            }
+        }
+        Err(_) => out.fail(Violation::new(prop, cfg, &[], "panic").obs("panic".into()).exp("outputs".into()).det(format!("long run {:?} seglen {}", names, seglen))),
+    }
+    Ok(())
+}
